@@ -320,6 +320,49 @@ fn run_shard(pn: u32, tier: Tier, seed: u64, shard: usize, nshards: usize, out: 
                     found = Some(Found { case: c2, failure: f2, job: job.name.clone() });
                 }
             }
+            JobKind::Sequences { base, alphabet, len } => {
+                st.kind = "bounded-exhaustive histories (every operation sequence of one length)";
+                let a = alphabet.len() as u64;
+                let total = a.pow(*len as u32);
+                let mut case = base.clone();
+                let mut idx = shard as u64;
+                let mut complete = true;
+                while idx < total {
+                    case.ops.clear();
+                    let mut x = idx;
+                    for _ in 0..*len {
+                        case.ops.push(alphabet[(x % a) as usize]);
+                        x /= a;
+                    }
+                    // journal only now and then: a crash is re-found by replaying the neighbourhood
+                    if idx % 4096 < nshards as u64 {
+                        journal.write(&case);
+                    }
+                    let o = eval_case(&case, EvalOpts::default());
+                    st.evaluations += 1;
+                    st.ops += o.ops_run as u64;
+                    st.observations += o.observations as u64;
+                    for c in &o.classes {
+                        *st.classes.entry(c).or_insert(0) += 1;
+                    }
+                    if st.samples.len() < 2 && o.failure.is_none() && o.observations > 0 {
+                        st.nontrivial.insert(case.hash64());
+                        st.samples.push(case.clone());
+                    }
+                    if let Some(f) = o.failure {
+                        journal.write(&case);
+                        let mut budget = 600u32;
+                        let (c2, f2) = ddmin_ops(case.clone(), f.prop, &mut journal, &mut budget);
+                        shrink_steps = 600 - budget;
+                        found = Some(Found { case: c2, failure: f2, job: job.name.clone() });
+                        complete = false;
+                        break;
+                    }
+                    idx += nshards as u64;
+                }
+                st.exhaustive = complete;
+                st.transitions = st.evaluations;
+            }
             JobKind::Fixed { cases, stop_on_first } => {
                 st.kind = "fixed table (complete enumeration of a finite space)";
                 let owner = nshards - 1 - (enum_idx % nshards);
@@ -622,6 +665,7 @@ fn main() {
                         JobKind::Random { cases, .. } => format!("random {} cases", cases),
                         JobKind::Enumerate { spec } => format!("enumerate alphabet={} battery={}", spec.alphabet.len(), spec.battery.len()),
                         JobKind::Fixed { cases, .. } => format!("fixed {} cases", cases.len()),
+                        JobKind::Sequences { alphabet, len, .. } => format!("all {} sequences of {} operations over an alphabet of {}", (alphabet.len() as u64).pow(*len as u32), len, alphabet.len()),
                     };
                     println!("{} {} :: {}", prop, j.name, k);
                 }
